@@ -220,6 +220,9 @@ Proof. induction a as [|x a IH]; simpl; [reflexivity|]. f_equal. exact IH. Qed.
 Lemma skipn_len_app {T} (a b : list T) : skipn (length a) (a ++ b) = b.
 Proof. induction a as [|x a IH]; simpl; [reflexivity|]. exact IH. Qed.
 
+Lemma skipn_S_len_app {T} (a b : list T) x : skipn (S (length a)) (a ++ x :: b) = b.
+Proof. induction a as [|y a IH]; simpl; [reflexivity|exact IH]. Qed.
+
 Lemma nth_error_len_app {T} (a b : list T) x : nth_error (a ++ x :: b) (length a) = Some x.
 Proof. induction a as [|y a IH]; simpl; [reflexivity|exact IH]. Qed.
 
